@@ -15,6 +15,9 @@ import os
 import sys
 import time
 
+# argparse wraps usage/error texts to the terminal width: pin it, so that results never depend on where the check runs
+os.environ['COLUMNS'] = '80'
+os.environ['LINES'] = '24'
 if os.environ.get('PYTHONHASHSEED') is None:
     os.environ['PYTHONHASHSEED'] = '0'
     os.execv(sys.executable, [sys.executable] + sys.argv)
